@@ -74,7 +74,16 @@ mpd_protocol and/or mpd_client (src/ files only, never the existing tests) such 
    borrowed arguments that are unaligned sub-slices; several iterators over one frame alive at once;
    hashes of slices / tuples / options of values; 10^5..10^6 DISTINCT field names per response and
    per connection; peers that send unasked lines together with the greeting; real-time pauses of up
-   to a minute between greeting segments; replies delayed by up to an hour of virtual time.
+   to a minute between greeting segments; replies delayed by up to an hour of virtual time; one caller
+   using several client handles and one handle used for many requests; request futures re-polled
+   with fresh wakers (stale wakers ignored) and spuriously; transports whose poll_shutdown stalls or
+   fails; hours to 50 days of silence; receive() called from destructors during unwinding; single
+   lines of 8-128 MiB; typed conversions that fail just before the one under test on the same thread;
+   decoded timestamps compared pairwise and with non-UTC offsets (chrono: offset preserved); every
+   iterator (protocol and typed) through fold/rfold/try_fold/try_rfold/for_each order checks, len()
+   at every stage, enumerate/zip/skip/take from the back, fused behaviour; URIs with schemes and
+   pictures carrying PNG/JPEG/GIF/WEBP signatures with mismatching MIME types; pending events.next()
+   futures dropped and re-created.
    Your change must still slip through: think about what is NOT in that list. Make it depend on a
    conjunction of individually unremarkable conditions that the list does not cross with each other,
    on state that only an unusual but legitimate sequence of public-API calls reaches, on an
